@@ -78,6 +78,31 @@ let dispatch = function
       Printf.sprintf "npm=%d perfect=%s min=%s w=%s minw=%s counter=%s distinctw=%s" npm (b perf) (b mn) (string_of_q wm)
         (match min_pm_weight g with None -> "_" | Some w -> string_of_q w)
         (match better with [] -> "_" | m' :: _ -> string_of_matching m') (b distinct_w)
+  | ["fcheck"; gs; ms] ->   (* the constant-space checker of Decoders/MatchingMin.v (is_min_pm_fast = is_min_pm): two passes
+                               over the recursion of all_pms (verdict, count); the least weight only when the verdict is false *)
+      let g = graph_of_string gs and m = matching_of_string ms in
+      let perf = is_perfect g m in
+      let mn = is_min_pm_fast g m in
+      let wm = weight g m in
+      Printf.sprintf "npm=%s perfect=%s min=%s w=%s minw=%s counter=_ distinctw=?"
+        (match npms_fast g with N0 -> "0" | Npos p -> string_of_int (int_of_string ("0b" ^ bin_of_pos p))) (b perf) (b mn) (string_of_q wm)
+        (if mn then string_of_q wm else match min_pm_weight_fast g with None -> "_" | Some w -> string_of_q w)
+  | [("mcheck" | "mcheckd") as cmd; gs; ms] ->
+      (* the memoised checker of Decoders/MatchingMemo.v on the graph scaled to integer weights (is_min_pm_big = is_min_pm);
+         the count from the scaled graph (all_pms_scaleq); the least weight (weight_scaleq) only when the verdict is false;
+         mcheckd: also distinctw, from the least weight of the negated graph (= minus the greatest) *)
+      let g = graph_of_string gs and m = matching_of_string ms in
+      let perf = is_perfect g m in
+      let mn = is_min_pm_big g m in
+      let wm = weight g m in
+      let c = den_scale g in
+      let sg = scaleq c g in
+      let distinct = if cmd = "mcheck" then "?" else
+        match min_pm_weight_memo sg, min_pm_weight_memo (negate sg) with
+        | Some a, Some d -> b (not (qle_bool a (qopp d) && qle_bool (qopp d) a)) | _ -> "0" in
+      Printf.sprintf "npm=%s perfect=%s min=%s w=%s minw=%s counter=_ distinctw=%s"
+        (match npms_memo sg with N0 -> "0" | Npos p -> string_of_int (int_of_string ("0b" ^ bin_of_pos p))) (b perf) (b mn) (string_of_q wm)
+        (if mn then string_of_q wm else match min_pm_weight_memo sg with None -> "_" | Some w -> string_of_q (qmult w (qinv c))) distinct
   | ["hist"; hs] ->   (* contents of the object after every operation of the history *)
       let (_, acc) = List.fold_left (fun (g, acc) o -> let g' = step g o in (g', string_of_graph g' :: acc)) ([], []) (List.map hop_of_string (split ';' hs)) in
       if acc = [] then "-" else String.concat "|" (List.rev acc)
